@@ -23,6 +23,7 @@ type Call struct {
 	Argv       []S      `json:"argv"`
 	IniOpts    []string `json:"iniOpts"`
 	FromWrite  int      `json:"fromWrite"` // ini: 0 = use Text; k > 0 = read the text produced by call k (a write) of this session
+	ViaFile    bool     `json:"viaFile"`   // write: IniParser.WriteFile onto a file that already holds a longer, unrelated text; ini: IniParser.ParseFile
 }
 
 type CallObs struct {
@@ -140,7 +141,19 @@ func runSessionOnce(t *Tree, sc *SessionScn) []*CallObs {
 				if c.FromWrite > 0 {
 					text = written[c.FromWrite]
 				}
-				err := ip.Parse(strings.NewReader(text))
+				var err error
+				if c.ViaFile {
+					f, ferr := os.CreateTemp("", "vh-ini-*")
+					if ferr != nil {
+						die(2, "temp file: %v", ferr)
+					}
+					f.WriteString(text)
+					f.Close()
+					err = ip.ParseFile(f.Name())
+					os.Remove(f.Name())
+				} else {
+					err = ip.Parse(strings.NewReader(text))
+				}
 				if err != nil {
 					co.ErrMsg = toS(err.Error())
 					switch e := err.(type) {
@@ -171,7 +184,24 @@ func runSessionOnce(t *Tree, sc *SessionScn) []*CallObs {
 				co.Retargs = toSs(rest)
 			case "write":
 				var buf bytes.Buffer
-				flags.NewIniParser(b.p).Write(&buf, iniOptsOf(c.IniOpts))
+				if c.ViaFile {
+					// the file exists already and holds more than what is written now: what is left afterwards is the new text only
+					f, ferr := os.CreateTemp("", "vh-ini-*")
+					if ferr != nil {
+						die(2, "temp file: %v", ferr)
+					}
+					f.WriteString(strings.Repeat("[Old Section]\nold = \"left over\"\n", 400))
+					f.Close()
+					werr := flags.NewIniParser(b.p).WriteFile(f.Name(), iniOptsOf(c.IniOpts))
+					data, _ := os.ReadFile(f.Name())
+					os.Remove(f.Name())
+					if werr != nil {
+						panic(werr)
+					}
+					buf.Write(data)
+				} else {
+					flags.NewIniParser(b.p).Write(&buf, iniOptsOf(c.IniOpts))
+				}
 				written[ci+1] = buf.String()
 				co.Text = toS(buf.String())
 				co.Lines = splitLinesS(buf.String())
